@@ -599,7 +599,16 @@ func (e *Enc) intToFloat(x Term, from types.Type, to Sort) Term {
 		}
 		return app(to, fmt.Sprintf("(_ to_fp_unsigned %s) RNE", fpSortArgs(to)), x)
 	}
-	return app(to, fmt.Sprintf("(_ to_fp %s) RNE", fpSortArgs(to)), app("Real", "to_real", x))
+	// Int mode: the conversion is an uninterpreted (but functional) symbol;
+	// functions whose contract depends on its exact value are marked "mode bv".
+	fn := "i2f_" + sanitize(string(to))
+	if !e.declared[fn] {
+		e.declared[fn] = true
+		e.vc.decl(fmt.Sprintf("(declare-fun %s (Int) %s)", fn, to))
+		e.vc.decl(fmt.Sprintf("(assert (forall ((x Int)) (! (and (not (fp.isNaN (%s x))) (not (fp.isInfinite (%s x)))) :pattern ((%s x)))))", fn, fn, fn))
+	}
+	e.assumption("int→float64 conversion in Int mode is an uninterpreted function returning a finite double (exact value only in 'mode bv' functions)")
+	return app(to, fn, x)
 }
 
 // floatToInt follows amd64 CVTTSD2SI for int64 targets: out of range or NaN
